@@ -231,11 +231,58 @@ pub fn eval(c: &Case) -> (Vec<Finding>, String, u64) {
                 (None, None) => {}
                 _ => bad("attested-section-presence", "attested credential data section present/absent contrary to the value".into()),
             }
-            if p.extensions != built.ext {
+            // built with serialize_bytes_as_base64_string, byte-valued extension outputs are written as
+            // base64url text (the feature's documented effect on every `Bytes`); the map must be the
+            // expected one up to that spelling
+            let want_ext = if crate::variant() == "serialize_bytes_as_base64_string" {
+                built.ext.clone().map(|e| match e {
+                    Cbor::Map(m) => Cbor::Map(m.into_iter().map(|(k, v)| (k, match v {
+                        Cbor::Bytes(b) => Cbor::Text(crate::oracles::b64::url_nopad(&b)),
+                        other => other,
+                    })).collect()),
+                    other => other,
+                })
+            } else {
+                built.ext.clone()
+            };
+            if p.extensions != want_ext {
                 bad("extension-map", format!("extension section {:?}, expected {:?}", p.extensions, built.ext));
             }
             if p.trailing != 0 {
                 bad("trailing-bytes", format!("{} bytes after the last section", p.trailing));
+            }
+        }
+    }
+    // ---- the serde form (how the value travels inside CTAP2 messages): one CBOR byte string holding
+    // exactly to_vec(), in every build variant, and it deserialises to an equal value
+    // (authenticator data beyond ciborium's 4 KiB scratch buffer – credential ids several times the
+    // WebAuthn maximum of 1023 bytes – cannot be borrowed by a visit_bytes-only visitor and is not
+    // demanded here)
+    if bytes.len() <= 4000 {
+        let mut wire = vec![];
+        match par::catch(|| ciborium::ser::into_writer(&built.value, &mut wire).map_err(|e| e.to_string())) {
+            Err(p) => bad("panic-in-serialize", p),
+            Ok(Err(e)) => bad("serde-serialize-fails", e),
+            Ok(Ok(())) => {
+                match ciborium::de::from_reader::<Cbor, _>(wire.as_slice()) {
+                    Ok(Cbor::Bytes(b)) if b == bytes => {}
+                    Ok(other) => bad("serde-form-not-the-byte-string", format!("serialised as {} instead of a byte string holding to_vec()", match other {
+                        Cbor::Bytes(_) => "a byte string with other content",
+                        Cbor::Text(_) => "a text string",
+                        Cbor::Array(_) => "an array",
+                        _ => "another CBOR type",
+                    })),
+                    Err(e) => bad("serde-form-not-cbor", e.to_string()),
+                }
+                match par::catch(|| ciborium::de::from_reader::<AuthenticatorData, _>(wire.as_slice()).map_err(|e| e.to_string())) {
+                    Err(p) => bad("panic-in-deserialize", p),
+                    Ok(Err(e)) => bad("serde-round-trip-fails", e),
+                    Ok(Ok(back)) => {
+                        if back.to_vec() != bytes {
+                            bad("serde-round-trip-differs", "deserialising the serialised value gives another value".into());
+                        }
+                    }
+                }
             }
         }
     }
@@ -462,7 +509,7 @@ pub fn run(ctx: &Ctx) -> Result<Run, String> {
     }
     let mut run = Run::from_stats(
         "exploration",
-        "full product RP id {'', ascii, Unicode, upper-case ascii, android facet with upper case, trailing dot, 33 and 64 bytes long} x counter {None,0,1,2^31,2^32-1} x all 16 subsets of {UP,UV,BE,BS} (through set_flags and by assigning the public field) x attested data {absent, AAGUID 0/pattern x id length 0,1,16,64,255,256,1023,65535, and for 16-byte ids the key shapes compressed EC2 (y as sign bit), OKP, EC2 with key id and an unregistered parameter, EC2 with its members in the order y, x, crv} x extensions {none, hmac-secret true, hmac-secret-mc bytes, assertion hmac-secret}; each encoding is parsed by an independent byte-level parser, round-tripped, every strict prefix decoded (must be rejected) and every position replaced by 16 boundary values (all 256 for the flags byte and for a representative subset of encodings); thorough adds all two-byte corruptions of the two shortest encodings. plus every sequence of up to 3 (4 thorough) setter calls out of 11 (flags, attested data, make/assert extension outputs incl. None and empty) after the constructor: AT/ED set exactly when the section is present, own encoding decodes to an equal value. Every case is a distinct encoding",
+        "full product RP id {'', ascii, Unicode, upper-case ascii, android facet with upper case, trailing dot, 33 and 64 bytes long} x counter {None,0,1,2^31,2^32-1} x all 16 subsets of {UP,UV,BE,BS} (through set_flags and by assigning the public field) x attested data {absent, AAGUID 0/pattern x id length 0,1,16,64,255,256,1023,65535, and for 16-byte ids the key shapes compressed EC2 (y as sign bit), OKP, EC2 with key id and an unregistered parameter, EC2 with its members in the order y, x, crv} x extensions {none, hmac-secret true, hmac-secret-mc bytes, assertion hmac-secret}; each encoding is parsed by an independent byte-level parser, round-tripped through from_slice and through serde (one CBOR byte string holding to_vec()), every strict prefix decoded (must be rejected) and every position replaced by 16 boundary values (all 256 for the flags byte and for a representative subset of encodings); thorough adds all two-byte corruptions of the two shortest encodings. plus every sequence of up to 3 (4 thorough) setter calls out of 11 (flags, attested data, make/assert extension outputs incl. None and empty) after the constructor: AT/ED set exactly when the section is present, own encoding decodes to an equal value. Every case is a distinct encoding",
         true,
         stats,
     );
